@@ -42,12 +42,74 @@ func init() {
 
 func ruleMergeArms(c *Ctx, r *R) {
 	info := c.info("chans")
+	type job struct {
+		name     string
+		fd       *ast.FuncDecl
+		countObj types.Object // the int parameter that carries the number of live inputs (shared helper), or nil
+	}
+	var jobs []job
+	analysed := map[*ast.FuncDecl]bool{}
 	for _, name := range []string{"merge2", "merge3"} {
 		fd := c.decl("chans." + name)
 		if fd == nil {
 			r.undecided("chans."+name+"|missing", token.NoPos, "function not found")
 			continue
 		}
+		// a merger that only hands its channels to a shared helper (mergeUpTo3(out, 2, in0, in1, nil)): each input is passed
+		// exactly once, the count argument equals the number of real inputs, and the helper itself is analysed as a merger
+		// whose done-count is compared with its count parameter
+		if len(fd.Body.List) == 1 {
+			if es, ok := fd.Body.List[0].(*ast.ExprStmt); ok {
+				if call, ok := es.X.(*ast.CallExpr); ok {
+					if id, ok := call.Fun.(*ast.Ident); ok {
+						if hfd := c.decl("chans." + id.Name); hfd != nil && hfd != fd {
+							var callerIns []types.Object
+							for _, f := range fd.Type.Params.List {
+								for _, pn := range f.Names {
+									if ch, ok := info.Defs[pn].Type().Underlying().(*types.Chan); ok && ch.Dir() != types.SendOnly {
+										callerIns = append(callerIns, info.Defs[pn])
+									}
+								}
+							}
+							passed := map[types.Object]int{}
+							lit := ""
+							for _, a := range call.Args {
+								switch x := a.(type) {
+								case *ast.Ident:
+									passed[info.Uses[x]]++
+								case *ast.BasicLit:
+									lit = x.Value
+								}
+							}
+							good := lit == itoa(len(callerIns))
+							for _, in := range callerIns {
+								if passed[in] != 1 {
+									good = false
+								}
+							}
+							r.ok(good, "chans."+name+"|delegates:"+id.Name, fd.Pos(), name+" must hand each of its "+itoa(len(callerIns))+" inputs exactly once, and that number as the count, to the shared merger")
+							var countObj types.Object
+							for _, f := range hfd.Type.Params.List {
+								for _, pn := range f.Names {
+									if b, ok := info.Defs[pn].Type().Underlying().(*types.Basic); ok && b.Info()&types.IsInteger != 0 {
+										countObj = info.Defs[pn]
+									}
+								}
+							}
+							if !analysed[hfd] {
+								analysed[hfd] = true
+								jobs = append(jobs, job{id.Name, hfd, countObj})
+							}
+							continue
+						}
+					}
+				}
+			}
+		}
+		jobs = append(jobs, job{name, fd, nil})
+	}
+	for _, jb := range jobs {
+		name, fd, countObj := jb.name, jb.fd, jb.countObj
 		// channel parameters other than the first (out)
 		var ins []types.Object
 		var out types.Object
@@ -203,7 +265,10 @@ func ruleMergeArms(c *Ctx, r *R) {
 					}
 				case *ast.BinaryExpr:
 					if s.Op == token.EQL {
-						if lit, ok := s.Y.(*ast.BasicLit); ok && lit.Value == itoa(len(ins)) && !countsDown {
+						if yid, isID := s.Y.(*ast.Ident); isID && countObj != nil && info.Uses[yid] == countObj && !countsDown {
+							cmpOK = true // the shared merger compares with the count its callers hand in
+						}
+						if lit, ok := s.Y.(*ast.BasicLit); ok && lit.Value == itoa(len(ins)) && !countsDown && countObj == nil {
 							cmpOK = true
 						} else if ok && lit.Value == "0" {
 							if id, isID := s.X.(*ast.Ident); isID && counterInit[info.Uses[id]] == itoa(len(ins)) {
@@ -339,17 +404,22 @@ func ruleMergeDispatch(c *Ctx, r *R) {
 	}
 	// len(in) == 1 path: range in[0] forwarding to out
 	one := false
-	instrs(fn, func(b *ssa.BasicBlock, i int, in ssa.Instruction) {
-		snd, ok := in.(*ssa.Send)
+	for _, d := range deepInstrs(fn, 1) { // possibly in a helper of its own (merge1(out, in[0]))
+		snd, ok := d.in.(*ssa.Send)
 		if !ok {
-			return
+			continue
+		}
+		if len(d.calls) > 0 {
+			if cal := staticCallee(&d.calls[0].Call); cal == nil || fname(cal) == "merge2" || fname(cal) == "merge3" {
+				continue
+			}
 		}
 		if ex, ok := snd.X.(*ssa.Extract); ok {
-			if rcv, ok := ex.Tuple.(*ssa.UnOp); ok && rcv.Op == token.ARROW && path(rcv.X) == pname(inP)+"[0]" && snd.Chan == ssa.Value(fn.Params[0]) {
+			if rcv, ok := ex.Tuple.(*ssa.UnOp); ok && rcv.Op == token.ARROW && path(argOf(rcv.X, d.calls)) == pname(inP)+"[0]" && argOf(snd.Chan, d.calls) == ssa.Value(fn.Params[0]) {
 				one = true
 			}
 		}
-	})
+	}
 	if !one {
 		// or delegated to Replicate(in[0], out), whose shape is decided by C12.replicate-shape
 		instrs(fn, func(b *ssa.BasicBlock, i int, in ssa.Instruction) {
